@@ -193,8 +193,7 @@ def allocator_obligations(ck, tm, R=lambda r: r):
                 hint = maps[-1].args[0] if maps else None
                 adv = None
                 if hint is not None and hint.e.op == "loopvar":
-                    fr = v.frames[0] if v.frames else None
-                    if fr is not None:
+                    for fr in reversed(v.frames or []):        # the loop (and its variable) may live in a helper the allocator calls
                         names = {d["name"]: d["place"]["l"] for d in fr.body["debug"] if not d["place"]["p"]}
                         l = names.get(hint.e.args[0])
                         if l is not None:
@@ -202,6 +201,7 @@ def allocator_obligations(ck, tm, R=lambda r: r):
                             if isinstance(nv, Int):
                                 terms, c = affine(binop("sub", nv.e, hint.e, nv.w), nv.w)
                                 adv = (terms, c)
+                                break
                 ok5 = adv is not None and ((not adv[0] and 0 < adv[1] < (1 << 40)) or (len(adv[0]) == 1 and list(adv[0].values())[0] == 1 and adv[1] == 0))
                 _ob(R("R11.5"), "%s/hint-advances" % an, tm.target, ok5,
                       "next hint - hint = %s" % ("%s + %s" % ({fmt(k, 3): vv for k, vv in adv[0].items()}, adv[1]) if adv else "unknown"),
